@@ -115,7 +115,7 @@ def deep():
     # ---- batch reader: 3 columns, all projections, all batch sizes
     for i, (ct, opt) in enumerate(ALL):
         yt, yopt = [(5, 1), (4, 0), (0, 1), (6, 1), (2, 0), (1, 1), (3, 1)][i % 7]
-        o.append(batch(ct, opt, yt, yopt, 9, [1, 2, 3, 2, 1], None))
+        o.append(batch(ct, opt, yt, yopt, 9, [1, 2, 3, 2, 1] if i % 2 == 0 else [2, 3, 1, 2, 1], None))
     for i, (ct, opt) in enumerate(ALL[::2] + ALL[1::4]):
         yt, yopt = [(2, 1), (5, 0), (0, 0), (4, 1)][i % 4]
         o.append(batch(ct, opt, yt, yopt, 10, [2, 3], [5, 1, 4]))
